@@ -461,7 +461,7 @@ def body(ctx):
 
 
 def run(ctx):
-    hyp_run(ctx, 'c14.machine', CASE, body(ctx), ctx.pick(50, 1200))
+    hyp_run(ctx, 'c14.machine', CASE, body(ctx), ctx.pick(50, 6000))
 
 
 def replay(ctx, check, case):
